@@ -12,6 +12,7 @@ mod project;
 #[cfg(feature = "serialize")]
 mod ser;
 mod states;
+mod stream;
 mod sweeps;
 
 use serde_json::{json, Value};
@@ -98,6 +99,7 @@ fn main() {
         "sweep-ext" => sweeps::cmd_ext(&args[2..]),
         "sweep-headers" => headers::cmd_headers(&args[2..]),
         "pipeline" => pipeline::cmd_pipeline(&args[2..]),
+        "stream" => stream::cmd_stream(&args[2..]),
         "sweep-sites" => sweeps::cmd_sites(&args[2..]),
         "states-sweep" => states::cmd_sweep(&args[2..]),
         "states-run" => states::cmd_run(&args[2..]),
